@@ -155,7 +155,7 @@ func TestVerifC15CacheEntry(t *testing.T) {
 		emit(line)
 	}
 	// the model tie: small concrete replies, stored body and DO=0 body computed by C15.Cache
-	for c := 0; c < 14+n/8; c++ {
+	for c := 0; c < 12+n/10; c++ {
 		vC15CacheEntryModelCase(emit, r)
 	}
 }
